@@ -137,6 +137,8 @@ def inproc(ctx):
                 tr["depth"] = rng.choice([1, 1, 2, 3])
             if rng.random() < 0.45 and (cfg["shape"] == "cyg" or "filter" in tr or "depth" in tr):
                 tr["time"] = rng.choice([0, 1, 5, 10, 100])
+            if rng.random() < 0.25 and (cfg["shape"] == "cyg" or "filter" in tr or "depth" in tr):
+                tr["size"] = rng.choice([20, 40, 60, 100])
             if rng.random() < 0.2:
                 tr["trace"] = True
             if use_caller and rng.random() < 0.4:
@@ -182,11 +184,13 @@ def inproc(ctx):
 
     def opt(v, f="%d"):
         return "None" if v is None else "Some " + (f % v)
-    sel2_terms = ["ok_sel2 [%s] %s %s %d %d %s %s" % (
-        "; ".join("(%d, {| sf := %s; sd := %s; stm := %s; str := %s; sc := %s |})" % (
+    sizes_term = "[%s]" % "; ".join("(%d, %d)" % (256 * i, z) for i, z in enumerate(mch.SIZES))
+    sel2_terms = ["ok_sel2 [%s] %s %s %s %d %d %s %s" % (
+        "; ".join("(%d, {| sf := %s; sd := %s; stm := %s; ssz := %s; str := %s; sc := %s |})" % (
             256 * k, "None" if t.get("filter") is None else "Some " + coq.coq_bool(t["filter"]),
-            opt(t.get("depth")), opt(t.get("time")), coq.coq_bool(t.get("trace")), coq.coq_bool(t.get("caller")))
-            for k, t in sorted(c["cfg"]["trig"].items())),
+            opt(t.get("depth")), opt(t.get("time")), opt(t.get("size")), coq.coq_bool(t.get("trace")),
+            coq.coq_bool(t.get("caller")))
+            for k, t in sorted(c["cfg"]["trig"].items())), sizes_term,
         coq.coq_bool(any(t.get("filter") is True for t in c["cfg"]["trig"].values())),
         coq.coq_bool(any(t.get("caller") for t in c["cfg"]["trig"].values())),
         c["cfg"].get("depth") if c["cfg"].get("depth") is not None else 1024, c["cfg"].get("threshold") or 0,
